@@ -150,3 +150,71 @@ Contract(
     loops={0: {'inv': ['emits == ite(iters >= 1, iters - 1, 0) and cleanups == 0 and iters >= 0', 'is_first_sweep == (iters == 0)', 'result == last'],
                'ghost_mut': ['iters', 'emits', 'cleanups', 'last']}},
 )
+
+
+# ---------------------------------------------------------------------------------------------------------------
+# C13: DMRGEngine.post_run_cleanup - what makes "the returned state is in canonical form" true for every mixer schedule:
+# the effects of a mixer are always removed (mixer_cleanup: 2-D "singular values" back to Schmidt values - also when the mixer was
+# switched off during the last sweep), then the mixer is switched off (F-43: _canonicalize does nothing while one is set), then the
+# final canonicalisation runs, exactly once each and in this order.
+DM = 'tenpy/algorithms/dmrg.py'
+
+
+def _prc_setup(I, env):
+    I.ghost['__env__'] = {'cleanups': z3.IntVal(0), 'canon': z3.IntVal(0)}
+    s = env['self']
+    if s.attrs['mixer'] is not None:
+        s.attrs['mixer'] = SObj('GhostMixer', None, {'amplitude': z3.Real('amplitude')})
+
+
+def _mixer_cleanup(I, f, args, kwargs):
+    g = I.ghost['__env__']
+    I.oblige('mixer_cleanup-before-canonicalisation', g['canon'] == 0, {'clause': 'mixer_cleanup() runs before the final canonicalisation'})
+    g['cleanups'] = g['cleanups'] + 1
+    return None
+
+
+def _canonicalize(I, f, args, kwargs):
+    g = I.ghost['__env__']
+    ok = f.self_obj.attrs['mixer'] is None
+    I.oblige('canonicalise-with-mixer-off-after-cleanup', z3.And(z3.BoolVal(ok), g['cleanups'] == 1),
+             {'clause': '_canonicalize() is called after mixer_cleanup(), with self.mixer None (it returns at once otherwise)'})
+    g['canon'] = g['canon'] + 1
+    return None
+
+
+
+def _prc_hunt():
+    """witness on real runs: every relation of disable_after to the number of sweeps; Schmidt values 1-D, state canonical"""
+    import warnings
+    import numpy as np
+    warnings.simplefilter('ignore')
+    from tenpy.models.xxz_chain import XXZChain
+    from tenpy.networks.mps import MPS
+    from tenpy.algorithms import dmrg
+    M = XXZChain({'L': 6, 'Jxx': 1., 'Jz': 1.3, 'hz': 0.05, 'bc_MPS': 'finite'})
+    for disable_after in (1, 2, 3):
+        for n in (1, 2, 3, 4):
+            psi = MPS.from_product_state(M.lat.mps_sites(), ['up', 'down'] * 3, 'finite')
+            opts = {'trunc_params': {'chi_max': 3, 'svd_min': 1e-12}, 'mixer': True, 'max_sweeps': n, 'min_sweeps': n, 'N_sweeps_check': 1,
+                    'max_trunc_err': None, 'mixer_params': {'amplitude': 1e-3, 'decay': 2., 'disable_after': disable_after}}
+            try:
+                E, out = dmrg.TwoSiteDMRGEngine(psi, M, opts).run()
+                bad = [i for i in range(1, out.L) if np.ndim(out.get_SL(i)) != 1]
+                nt = None if bad else float(np.max(np.abs(out.norm_test())))
+                ok = not bad and nt < 1e-8
+                obs = f'bonds with 2-D "Schmidt values": {bad}; norm_test {nt}'
+            except Exception as e:
+                ok, obs = False, f'{type(e).__name__}: {e}'
+            if not ok:
+                return {'input': {'engine': 'TwoSiteDMRGEngine, XXZChain(L=6), chi_max=3', 'disable_after': disable_after, 'sweeps': n}, 'observed': obs}
+    return None
+
+
+Contract(
+    target=f'{DM}::DMRGEngine.post_run_cleanup', props=['C13'], name='DMRGEngine.post_run_cleanup',
+    params={'self': Obj('DMRGEngine', DM, {'mixer': OneOf(None, 'some mixer'), 'sweeps': Int(), 'ortho_to_envs': Const([]), 'psi': _Opaque()})},
+    setup=_prc_setup, hunt=_prc_hunt,
+    hooks={f'{MC}::Sweep.mixer_cleanup': _mixer_cleanup, f'{DM}::DMRGEngine._canonicalize': _canonicalize},
+    ensures=['cleanups == 1 and canon == 1', 'is_none(self.mixer)'],
+)
